@@ -621,6 +621,7 @@ pub fn run_b(ctx: &Ctx) {
             if let Some(f) = opts.iter().find(|o| !o.arg) {
                 bad.push(("unknown short option inside a group", vec![format!("-{}{unused}", f.short)]));
                 bad.push(("argument given to an option that takes none", vec![format!("--{}=x", f.long)]));
+                bad.push(("empty argument given to an option that takes none", vec![format!("--{}=", f.long)]));
             }
             // ambiguous prefixes
             let mut seen = std::collections::BTreeSet::new();
@@ -723,6 +724,9 @@ const SET_KILL_MALFORMED: &[(&str, &str)] = &[
     ("missing signal", "kill -s"),
     ("unknown signal", "kill -s NOSUCHSIG $$"),
     ("unknown signal", "kill -NOSUCHSIG $$"),
+    ("unknown long option", "kill --zzzunknown $$"),
+    ("unknown long option", "kill -l --zzzunknown"),
+    ("unknown option", "kill -s 0 ---- $$"),
     ("no target", "kill"),
     ("no target", "kill -s USR1"),
 ];
